@@ -157,8 +157,11 @@ class Run:
             "wall_s": round(time.time() - self.t0, 2),
             "violations": len(new),
         }
-        EVIDENCE.mkdir(parents=True, exist_ok=True)
-        (EVIDENCE / f"{self.pid}.json").write_text(json.dumps(ev, indent=1, default=str))
+        # extension checks (X..: models beyond the listed properties) keep their evidence apart from the
+        # per-property files that MANIFEST.json registers
+        evdir = EVIDENCE / "ext" if self.pid.startswith("X") else EVIDENCE
+        evdir.mkdir(parents=True, exist_ok=True)
+        (evdir / f"{self.pid}.json").write_text(json.dumps(ev, indent=1, default=str))
         for d in self.drift[:10]:
             print(f"DRIFT: {d}")
         print(f"{self.pid} {self.tier}: states={self.states} transitions={self.transitions} "
